@@ -50,7 +50,7 @@ def job(cfg):
         bp = res['by_prop'].setdefault(prop, {'total': 0, 'unsat': 0, 'sat': 0, 'unknown': 0}); bp['total'] += 1; bp[v] += 1
     wrap_found = set()
     for mask in cfg['masks']:
-        sc = MaskScenario(mod, mask)
+        sc = BaseMaskScenario(mod, mask) if cfg.get('scenario') == 'base' else MaskScenario(mod, mask)
         ex = X.Executor(mod, sc, max_paths=cfg.get('max_paths', 4000))
         try:
             ex.run(fname, [X.Ptr('obj:self'), X.Ptr('obj:args'), X.Ptr('obj:kwrds')])
@@ -118,6 +118,8 @@ def job(cfg):
                         a[f] = v if not X.is_conc(v) else z3.IntVal(v)
                     elif arg[0] == 'buf': arrays[f] = (arg[1], arg[2])
                     elif arg[0] == 'val': a[f] = arg[1] if not X.is_conc(arg[1]) else z3.IntVal(arg[1])
+                    elif arg[0] == 'ptr' and str(arg[1]) == 'g:@intOne': a[f] = z3.IntVal(1)
+                    elif arg[0] == 'ptr' and f in ('ALPHA', 'BETA') and str(arg[1]).startswith('g:@'): pass     # scalar constant of base.c (One/Zero): not part of any footprint
                     else:
                         okargs = False; res['unsupported'].append('%s: argument %s is %r' % (ev.name, f, arg[:2])); break
                 if not okargs: continue
@@ -131,7 +133,8 @@ def job(cfg):
                     size = M.len * M.esize()
                     fp = fps[arr]
                     offt = off if not X.is_conc(off) else z3.IntVal(off)
-                    ok = z3.Or(fp <= 0, z3.And(offt >= 0, offt + fp*es <= size))
+                    # the reference routine validates its own arguments first (XERBLA, return without touching memory)
+                    ok = z3.Or(z3.Not(z3.And(*pres)) if pres else z3.BoolVal(False), fp <= 0, z3.And(offt >= 0, offt + fp*es <= size))
                     oks.append(ok)
                     offkw = sc.offset_kw(mname)
                     okp = None
@@ -148,6 +151,9 @@ def job(cfg):
                     for arr, mname, ok, okp in per:
                         r, m, dt = query(p['pc'], noovf + [z3.Not(ok)])
                         count('C19', r if r in ('unsat', 'sat') else 'unknown', dt)
+                        if r == 'sat':
+                            r2, m2, _ = query(p['pc'], noovf + [z3.Not(ok)] + [z3.And(M2.nrows >= 1, M2.ncols >= 1, M2.nrows <= 4, M2.ncols <= 4) for M2 in sc.mats.values()])   # prefer an instance that replays quickly
+                            if r2 == 'sat': m = m2
                         if r == 'sat': res['findings'].append(finding(fname, 'C19', 'Q_small', '%s: array %s (matrix %s) footprint outside the buffer without integer overflow' % (ev.name, arr, mname), m, sc, mask, key='%s:%s:footprint' % (fname, mname)))
                         elif r != 'unsat': res['unsupported'].append('%s %s: Q_small undecided' % (ev.name, arr))
                 # Q_ptr
@@ -184,10 +190,12 @@ def job(cfg):
     res['wall'] = round(time.time() - t0, 1)
     return res
 
+BASE_WRAPPERS = ('base_gemm', 'base_gemv', 'base_syrk', 'base_symv', 'base_axpy')
 QUICK = {  # wrapper -> locals whose vanishing makes the reference operation a no-op ('any' of them == 0 / <= 0)
     'swap': ['n'], 'scal': ['n'], 'copy': ['n'], 'axpy': ['n'], 'dot': ['n'], 'dotu': ['n'], 'nrm2': ['n'], 'asum': ['n'], 'iamax': ['n'],
     'gemv': ['m', 'n'], 'gbmv': ['m', 'n'], 'symv': ['n'], 'hemv': ['n'], 'sbmv': ['n'], 'hbmv': ['n'], 'trmv': ['n'], 'tbmv': ['n'], 'trsv': ['n'], 'tbsv': ['n'],
     'ger': ['m', 'n'], 'geru': ['m', 'n'], 'syr': ['n'], 'her': ['n'], 'syr2': ['n'], 'her2': ['n'],
+    'base_gemm': ['m', 'n'], 'base_gemv': ['m', 'n'], 'base_syrk': ['n'], 'base_symv': ['n'], 'base_axpy': ['n'],
     'gemm': ['m', 'n'], 'symm': ['m', 'n'], 'hemm': ['m', 'n'], 'syrk': ['n'], 'herk': ['n'], 'syr2k': ['n'], 'her2k': ['n'], 'trmm': ['m', 'n'], 'trsm': ['m', 'n'],
 }
 def quick_return_condition(fname, mem):
@@ -227,6 +235,8 @@ class MaskScenario(WrapScenario):
         self.names = names
         return WrapScenario.parse_args(self, ex, st, vals)
     def offset_kw(self, mname):
+        return self._offset_kw(mname)
+    def _offset_kw(self, mname):
         for cand in ('offset' + mname, 'offset'):
             if cand in self.kw and self.kw[cand][0] == 'i':
                 _, g, v, cur = self.kw[cand]
@@ -268,9 +278,9 @@ class MaskScenario(WrapScenario):
 
 REPLAY_PROG = r'''
 import sys, json
-from cvxopt import matrix, blas
+from cvxopt import matrix, blas, base
 spec = json.loads(sys.argv[1])
-ns = {'matrix': matrix, 'blas': blas}
+ns = {'matrix': matrix, 'blas': blas, 'base': base}
 for s in spec['setup']: exec(s, ns)
 try:
     r = eval(spec['call'], ns)
@@ -310,29 +320,71 @@ def replay_call(callspec, timeout=300):
 
 def replay_main(path):
     d = json.load(open(path))
-    rep, why = replay_call(d['call'])
+    cs = dict(d['call']); cs['call'] = cs['call'].replace('blas.base_', 'base.', 1)
+    rep, why = replay_call(cs)
     if rep: print('REPRODUCED on the real build: %s' % rep); return 1
     print(why); return 0
 
+class BaseMaskScenario(MaskScenario):
+    """base.c wrappers (gemm, gemv, syrk, symv, axpy), all-dense variant: every matrix argument is a dense 'd' matrix
+    (type checks against matrix_tp succeed, against spmatrix_tp fail), number conversion through convert_num[1]"""
+    def __init__(self, mod, mask):
+        MaskScenario.__init__(self, mod, mask)
+        self.id_fixed = 1
+    def scalar_objects(self):
+        return set(n for n in self.kw if n in ('alpha', 'beta', 'partial'))
+    def external_load(self, ex, st, region, off, ty):
+        g = region[3:]
+        from vp.llsym.exec import is_conc, Unsupported, Ptr
+        if g in ('convert_num', 'write_num', 'sp_gemm', 'sp_gemv', 'sp_syrk', 'sp_symv', 'sp_axpy'):
+            if not is_conc(off): raise Unsupported('symbolic index into table %s' % g)
+            return Ptr('fn:%s#%d' % (g, off//8), 0)
+        if g == 'E_SIZE':
+            if not is_conc(off): raise Unsupported('symbolic index into E_SIZE')
+            return [8, 8, 16][off//4]
+        raise Unsupported('load from external global %s' % g)
+    def call(self, ex, st, name, args, rt):
+        from vp.llsym.exec import Ptr, NULL, Unsupported
+        vals = [v for _, v in args]
+        if name in ('PyObject_TypeCheck', 'Py_IS_TYPE'):
+            o, tp = vals[0], vals[1]
+            tname = tp.region[3:] if isinstance(tp, Ptr) and str(tp.region).startswith('g:@') else None
+            if tname == 'matrix_tp':
+                ok = isinstance(o, Ptr) and str(o.region).startswith('obj:') and o.region[4:] not in ('None', 'result', 'self', 'args', 'kwrds') and \
+                     (o.region[4:] in self.mats or self._is_matrix_kw(o.region[4:]))
+                return 1 if ok else 0
+            if tname == 'spmatrix_tp': return 0
+            if tname == 'PyBool_Type': return 1
+            raise Unsupported('type check against %s' % tname)
+        if name.startswith('convert_num#') or name in ('convert_dnum', 'convert_znum', 'convert_inum'):
+            import z3
+            r = ex.fresh('numconv'); ex.assume(st, z3.Or(r == 0, r == -1))
+            a = vals[0]
+            if isinstance(a, Ptr) and a.region:
+                st.mem[(a.region, a.off if isinstance(a.off, int) else 0)] = ex.fresh('num_re', 'real')
+            return r
+        if name in ('PyLong_AsLong',): return ex.fresh('aslong')
+        return MaskScenario.call(self, ex, st, name, args, rt)
+
 # ------------------------------------------------------------------------------------------ driver
 
-def main(tier, pid='C17', ev=None):
+def main(tier, pid='C17', ev=None, src='blas'):
     from vp import common
     from vp.llsym import ir
     shared = ev is not None
     if ev is None: ev = common.Evidence(pid, 'model_checking', tier)
     work = tempfile.mkdtemp(prefix='vp.ir.', dir='/var/tmp')
     try:
-        cfile = os.path.join(common.REPO, 'src', 'C', 'blas.c')
+        cfile = os.path.join(common.REPO, 'src', 'C', src + '.c')
         ll = ir.compile_to_ir(cfile, common.REPO, work)
         mod = ir.Module(open(ll).read())
-        names = wrapper_names(mod)
+        names = wrapper_names(mod) if src == 'blas' else [n for n in wrapper_names(mod) if n in BASE_WRAPPERS]
         cfgs = []
         for fn in names:
             masks = scenarios_for(mod, fn)
             if tier == 'quick' and len(masks) > 2: masks = [masks[0], masks[-1]]     # optional scalars: none / all supplied
             for mk in masks:            # one job per (wrapper, optional-object scenario): better load balance
-                cfgs.append({'ll': ll, 'fn': fn, 'masks': [mk], 'timeout_ms': 10000 if tier == 'quick' else 60000, 'max_paths': 40000})
+                cfgs.append({'ll': ll, 'fn': fn, 'masks': [mk], 'timeout_ms': 10000 if tier == 'quick' else 60000, 'max_paths': 40000, 'scenario': src})
         cfgs.sort(key=lambda c: -len(mod.functions[c['fn']].order))      # biggest wrappers first
         results = common.run_jobs('vp.checks.c17', 'job', cfgs)
         known = common.known_findings(pid)
@@ -349,10 +401,10 @@ def main(tier, pid='C17', ev=None):
             ev.solver_s += res['solver_s']
             if res['sample']: ev.sample(res['sample'], cap=5)
             for u in res['unsupported']: herr.append('%s: %s' % (res['fn'], u))
-            for wk in res.get('pairs', {}): allpairs.add('blas.' + wk)
+            for wk in res.get('pairs', {}): allpairs.add(src + '.' + wk)
             for f in res['findings']:
                 if f['prop'] != pid: continue
-                groups.setdefault('blas.' + f['key'], []).append(f)
+                groups.setdefault(src + '.' + f['key'], []).append(f)
         new_keys = [k for k in sorted(groups) if k not in known]
         for k in sorted(groups):
             f = groups[k][0]
@@ -362,7 +414,8 @@ def main(tier, pid='C17', ev=None):
             rep, why = (None, 'no call rendered')
             for f2 in groups[k][:3]:
                 if f2['call']:
-                    rep, why = replay_call(f2['call'])
+                    cs = dict(f2['call']); cs['call'] = cs['call'].replace('blas.base_', 'base.', 1)
+                    rep, why = replay_call(cs)
                     if rep: break
             if rep: violations.append((k, rp, '%s -> %s' % (f['text'], rep)))
             elif f['kind'] in ('Q_ptr', 'Q_rej', 'Q_zero'):
@@ -370,13 +423,13 @@ def main(tier, pid='C17', ev=None):
                 violations.append((k, rp, '%s (call: %s; not observable as a memory error: %s)' % (f['text'], (f['call'] or {}).get('call'), why)))
             else:
                 herr.append('%s: counterexample %s - %s' % (k, (f['call'] or {}).get('call'), why))
-        ev.extra['finding_keys_blas'] = sorted(groups)
-        ev.extra['wrapper_matrix_pairs_blas'] = sorted(allpairs)
+        ev.extra['finding_keys_' + src] = sorted(groups)
+        ev.extra['wrapper_matrix_pairs_' + src] = sorted(allpairs)
         ev.extra['known_keys_hit'] = len(known_hits)
         covd = ({'states': max(1, paths) + ev.cov.get('states', 0), 'transitions': max(1, ev.obl['total']), 'traces_validated_against_impl': 0,
-                       'functions_encoded': ev.cov.get('functions_encoded', []) + ['blas.c: ' + ', '.join(sorted(names))], 'blas_call_events_checked': events, 'branch_queries': bq,
+                       'functions_encoded': ev.cov.get('functions_encoded', []) + [src + '.c: ' + ', '.join(sorted(names))], src + '_call_events_checked': events, 'branch_queries': bq,
                        'source_hash': ir.src_hash(cfile),
-                       'bounds': (ev.cov.get('bounds', '') + ' | ' if ev.cov.get('bounds') else '') + 'all %d wrappers of blas.c; every int keyword over the full 32-bit range (given or omitted), matrix shapes 0 <= nrows, ncols, nrows*ncols < 2^31, typecode in {i,d,z}, flags any character, optional scalar objects given/omitted; loops unrolled <= 3 (none occur)' % len(names)})
+                       'bounds': (ev.cov.get('bounds', '') + ' | ' if ev.cov.get('bounds') else '') + ('all %d wrappers of blas.c' if src == 'blas' else 'the %d BLAS-backed wrappers of base.c with dense d arguments') % len(names) + '; every int keyword over the full 32-bit range (given or omitted), matrix shapes 0 <= nrows, ncols, nrows*ncols < 2^31, typecode in {i,d,z}, flags any character, optional scalar objects given/omitted; loops unrolled <= 3 (none occur)'})
         ev.cov.update(covd)
         ev.assumptions += ['C int arithmetic: z3 Int with explicit wrap-around variables; paths "without overflow" exclude every wrap event',
                            'CPython API / cvxopt_API calls are contract stubs (argument parsing = arbitrary well-typed values; Matrix_Check true for matrix arguments; number conversion may fail); sparse arguments and allocation failure are outside',
